@@ -362,6 +362,8 @@ type RunObs struct {
 	Events []string  `json:"events"`
 	Last   ActImg    `json:"last"` // the action as handed to the last UpdateAction of this run
 	Trunc  bool      `json:"trunc,omitempty"`
+	Stuck  bool      `json:"stuck,omitempty"` // plan hung and this run saw no event during the last second before the snapshot
+	lastAt time.Time
 }
 
 type ActObs struct {
@@ -472,6 +474,7 @@ var (
 const maxEvents = 400
 
 func (r *RunObs) add(e string) {
+	r.lastAt = time.Now()
 	if len(r.Events) >= maxEvents {
 		r.Trunc = true
 		return
@@ -537,8 +540,8 @@ func behave(ctx context.Context, p *hplug.Plugin, req any) (any, *plugins.Error)
 	k := run.Calls
 	run.Calls++
 	run.Ctx = append(run.Ctx, false)
-	run.Eff = append(run.Eff, OOk)
 	planned := rec.spec.planned(k)
+	run.Eff = append(run.Eff, planned)
 	if ctx.Err() != nil {
 		pr.disturbed = append(pr.disturbed, fmt.Sprintf("%s call %d entered after its deadline", rq.Path, k))
 	}
@@ -552,7 +555,9 @@ func behave(ctx context.Context, p *hplug.Plugin, req any) (any, *plugins.Error)
 	if planned == OOverrun {
 		select {
 		case <-ctx.Done():
-		case <-time.After(4 * time.Second):
+		case <-time.After(1500 * time.Millisecond):
+			// the deadline (15-25 ms) passed long ago and the context was never cancelled: an observation
+			// (ctx flag false for an overrun), not a disturbance
 			capped = true
 		}
 	}
@@ -566,9 +571,8 @@ func behave(ctx context.Context, p *hplug.Plugin, req any) (any, *plugins.Error)
 	cancelled := ctx.Err() != nil
 	if cancelled {
 		eff = OOverrun
-	} else if capped {
-		eff = OErr
 	}
+	_ = capped
 	if eff != planned {
 		pr.disturbed = append(pr.disturbed, fmt.Sprintf("%s call %d planned %s delivered %s", rq.Path, k, outcomeName[planned], outcomeName[eff]))
 	} else if eff != OOverrun {
@@ -720,7 +724,7 @@ func runBatch(specs []*PlanSpec, seed uint64) []*PlanObs {
 	}
 	wg.Wait()
 	// let plugins whose invocation the engine abandoned (overrun) return
-	for t := 0; t < 500; t++ {
+	for t := 0; t < 1000; t++ {
 		mu.Lock()
 		n := 0
 		for i, pr := range prs {
@@ -783,6 +787,7 @@ func runBatch(specs []*PlanSpec, seed uint64) []*PlanObs {
 			cp := &ActObs{Path: ob.Path, Idle: append([]string{}, ob.Idle...), Back: ob.Back, Runs: []*RunObs{}}
 			for _, r := range ob.Runs {
 				rc := *r
+				rc.Stuck = out[i].Hang && time.Since(r.lastAt) > time.Second
 				rc.Ctx = append([]bool{}, r.Ctx...)
 				rc.Eff = append([]Outcome{}, r.Eff...)
 				rc.Events = append([]string{}, r.Events...)
@@ -909,7 +914,7 @@ func acaseTerm(a *ActSpec, o *ActObs, partial bool) string {
 	runs := make([]string, len(o.Runs))
 	for i, r := range o.Runs {
 		runs[i] = core.App("Build_run_obs", outcomesTerm(effScript(a, r)), core.Nat(r.Calls), boolsTerm(r.Ctx),
-			attsTerm(r.Last.Atts), statusTerm(r.Last.Status), core.List(r.Events))
+			attsTerm(r.Last.Atts), statusTerm(r.Last.Status), core.List(r.Events), core.B(r.Stuck))
 	}
 	return core.App("Build_acase", core.Nat(a.Retries), outcomesTerm(a.Script), outcomeName[a.Dflt], core.B(partial),
 		core.List(runs), core.List(o.Idle), core.Pair(attsTerm(o.Back.Atts), statusTerm(o.Back.Status)))
